@@ -6,6 +6,8 @@ use crate::ops::Op;
 use crate::plan::Plan;
 
 pub struct Minimizer {
+    pub started: std::time::Instant,
+    pub wall_cap_s: u64,
     pub refs: RefTable,
     pub evals: usize,
     pub budget: usize,
@@ -23,6 +25,8 @@ fn matches(m: &Minimizer, v: &Violation) -> bool {
 impl Minimizer {
     pub fn new(v: &Violation, budget: usize) -> Self {
         Minimizer {
+            started: std::time::Instant::now(),
+            wall_cap_s: 240,
             refs: RefTable::default(),
             evals: 0,
             budget,
@@ -34,7 +38,9 @@ impl Minimizer {
 
     /// Some(violation, schedule) if the plan still fails the same way.
     pub fn fails(&mut self, plan: &Plan) -> Option<(Violation, Vec<(u32, u32)>)> {
-        if self.evals >= self.budget {
+        // the wall-clock cap only bounds how far minimisation goes (hanging candidates cost a
+        // full watchdog period each); whatever it returns is re-verified by replay
+        if self.evals >= self.budget || (self.evals > 0 && self.started.elapsed().as_secs() > self.wall_cap_s) {
             return None;
         }
         self.evals += 1;
